@@ -275,7 +275,7 @@ func c02StreamAlloc(p *Prog, r *Report) {
 			}
 		}
 		var bad []string
-		lits := structLits(send, func(t types.Type) bool { return typeIs(t, "proxycore", "requestSender") })
+		lits := structLitsVia(p, send, func(t types.Type) bool { return typeIs(t, "proxycore", "requestSender") })
 		if len(lits) != 1 {
 			bad = append(bad, fmt.Sprintf("%d sender objects built in ClientConn.%s", len(lits), send.Name()))
 		}
@@ -328,7 +328,8 @@ func c02StreamAlloc(p *Prog, r *Report) {
 		if sf := p.fieldByType("proxycore", "requestSender", func(t types.Type) bool { b, ok := t.Underlying().(*types.Basic); return ok && b.Kind() == types.Int16 }); sf != nil {
 			for _, acc := range fieldAccesses(p.ScopedFuncs("proxycore"), sf) {
 				if acc.Write {
-					if a, ok := acc.Base.(*ssa.Alloc); !ok || a.Parent() != send {
+					if a, ok := acc.Base.(*ssa.Alloc); !ok || a.Parent() != acc.Fn {
+						// (a store into a literal under construction, here or in a constructor, makes a new sender)
 						bad = append(bad, p.Pos(acc.Instr.Pos())+": sender stream rewritten in "+acc.Fn.Name())
 					}
 				}
@@ -338,6 +339,94 @@ func c02StreamAlloc(p *Prog, r *Report) {
 		}
 		r.check(len(bad) == 0, rule, "ClientConn.Send:sender", p.Pos(send.Pos()), "", strings.Join(dedupe(bad), " || "))
 	}
+}
+
+// freshHeader: v is a header object of its own: the result of DeepCopy()/Clone(), a header
+// literal, or what a repo helper returns when all its returns are such.
+func freshHeader(p *Prog, v ssa.Value, depth int) bool {
+	switch h := v.(type) {
+	case *ssa.Alloc:
+		return true
+	case *ssa.Call:
+		c := h.Call.StaticCallee()
+		if c == nil {
+			return false
+		}
+		if c.Name() == "DeepCopy" || c.Name() == "Clone" {
+			return true
+		}
+		if depth == 0 || !p.InRepo(c) || c.Blocks == nil {
+			return false
+		}
+		ok, n := true, 0
+		eachInstr(c, func(in ssa.Instruction) {
+			if ret, isRet := in.(*ssa.Return); isRet && len(ret.Results) == 1 {
+				n++
+				for _, o := range origins(ret.Results[0]) {
+					if !freshHeader(p, o, depth-1) {
+						ok = false
+					}
+				}
+			}
+		})
+		return ok && n > 0
+	}
+	return false
+}
+
+// headerHelperSetsStream: v is the result of a repo helper that stores the sender's stream field
+// into the StreamId of the header it returns, before returning it.
+func headerHelperSetsStream(p *Prog, v ssa.Value, streamIdF, senderStream *types.Var) bool {
+	for _, o := range origins(v) {
+		call, ok := o.(*ssa.Call)
+		if !ok {
+			return false
+		}
+		g := call.Call.StaticCallee()
+		if g == nil || !p.InRepo(g) || g.Blocks == nil {
+			return false
+		}
+		okAll, n := true, 0
+		eachInstr(g, func(in ssa.Instruction) {
+			ret, isRet := in.(*ssa.Return)
+			if !isRet || len(ret.Results) != 1 {
+				return
+			}
+			n++
+			set := false
+			eachInstr(g, func(in2 ssa.Instruction) {
+				st, ok := in2.(*ssa.Store)
+				if !ok {
+					return
+				}
+				fa, ok := st.Addr.(*ssa.FieldAddr)
+				if !ok || fieldOfAddr(fa) != streamIdF {
+					return
+				}
+				same := false
+				for _, a := range origins(fa.X) {
+					for _, b := range origins(ret.Results[0]) {
+						if a == b {
+							same = true
+						}
+					}
+				}
+				if !same || !(st.Block() == ret.Block() || st.Block().Dominates(ret.Block())) {
+					return
+				}
+				if f, base := loadedField(st.Val); f != nil && ((senderStream != nil && f == senderStream) || (senderStream == nil && len(g.Params) > 0 && base == ssa.Value(g.Params[0]))) {
+					set = true
+				}
+			})
+			if !set {
+				okAll = false
+			}
+		})
+		if !okAll || n == 0 {
+			return false
+		}
+	}
+	return true
 }
 
 // c02StreamAtWrite: who writes Header.StreamId of frames obtained from a Request.
@@ -382,13 +471,8 @@ func c02StreamAtWrite(p *Prog, r *Report, rule string) {
 					for _, rr := range *fa.Referrers() {
 						if st, ok := rr.(*ssa.Store); ok && st.Addr == ssa.Value(fa) {
 							for _, ho := range origins(st.Val) {
-								switch h := ho.(type) {
-								case *ssa.Call:
-									if c := h.Call.StaticCallee(); c != nil && (c.Name() == "DeepCopy" || c.Name() == "Clone") {
-										okHdr = true
-									}
-								case *ssa.Alloc:
-									okHdr = true // a header literal
+								if freshHeader(p, ho, 2) {
+									okHdr = true
 								}
 							}
 						}
@@ -500,6 +584,29 @@ func c02StreamAtWrite(p *Prog, r *Report, rule string) {
 				}
 			})
 			if !okStore {
+				// the header may come ready-made from a helper of the sender (r.header(orig)): the helper
+				// stores the sender's stream into the fresh header it returns
+				for _, o := range origins(cm.Args[0]) {
+					al, ok := o.(*ssa.Alloc)
+					if !ok {
+						continue
+					}
+					for _, ref := range *al.Referrers() {
+						fa, ok := ref.(*ssa.FieldAddr)
+						if !ok || fieldOfAddr(fa).Name() != "Header" {
+							continue
+						}
+						for _, rr := range *fa.Referrers() {
+							if st, ok := rr.(*ssa.Store); ok && st.Addr == ssa.Value(fa) {
+								if headerHelperSetsStream(p, st.Val, streamIdF, senderStream) {
+									okStore = true
+								}
+							}
+						}
+					}
+				}
+			}
+			if !okStore {
 				bad = append(bad, fmt.Sprintf("%s: the copy encoded in %s does not carry the sender object's own allocated stream id", p.Pos(c.Pos()), fn.Name()))
 			}
 		})
@@ -522,7 +629,7 @@ func c02ReplyStream(p *Prog, r *Report) {
 	verF := p.Field("frame", "Header", "Version")
 	// construction literal
 	var bad []string
-	lits := structLits(cr.forward, func(t types.Type) bool { return namedOf(t) == req })
+	lits := structLitsVia(p, cr.forward, func(t types.Type) bool { return namedOf(t) == req })
 	if len(lits) != 1 {
 		bad = append(bad, fmt.Sprintf("%d request literals in %s", len(lits), cr.forward.Name()))
 	}
@@ -628,7 +735,8 @@ func privateFrames(p *Prog, r *Report, rule string) {
 	prepF := p.FieldRole("proxycore", "prepareRequest", "prepare", isRawFramePtr)
 	entryF := p.Field("proxycore", "PreparedEntry", "PreparedFrame")
 	isFreshCopy := func(v ssa.Value) (bool, string) {
-		for _, o := range origins(v) {
+		// (a value handed to a constructor helper is judged where the helper is called)
+		for _, o := range originsInter(p, v, 2) {
 			if ex, ok := o.(*ssa.Extract); ok && ex.Index == 0 {
 				if cc, ok := ex.Tuple.(*ssa.Call); ok {
 					o = cc
